@@ -94,7 +94,8 @@ PROPS = {
         all_labels_in_scope=True,
         explanation='the unfired.*, frame.*, fired.shape.* and operand clauses of every instruction row: nothing is pushed when an operand or guard is missing, operand stacks lose at most the row\'s operands, '
                     'and every state component outside the row\'s footprint is unchanged',
-        not_decided=['instructions whose bodies are external (listed under out_of_reach) carry no checked contract'],
+        not_decided=['instructions whose bodies are external (listed under out_of_reach) carry no checked Verus contract; the thorough tier checks with Kani that they leave the empty state untouched'],
+        thorough=True,
     ),
     'C01': dict(
         level='proof',
